@@ -52,7 +52,9 @@ class Die(BaseException):
 
 class Box(object):
     """state of the wrappers inside a child"""
-    def __init__(self, root, die_at=None, exdev=False, record=True):
+    def __init__(self, root, die_at=None, exdev=False, record=True, raise_at=None):
+        self.raise_at = raise_at    # (index of the write call, exception factory): that write raises instead of writing
+        self.nwrites = 0
         self.root = os.path.abspath(root) + os.sep
         self.die_at = die_at
         self.exdev = exdev
@@ -61,6 +63,7 @@ class Box(object):
         self.fdpath = {}
         self.reads = []
         self.record = record
+        self.raised = False
 
     def mine(self, p):
         # by the path the code used, not by what a symbolic link resolves to
@@ -103,6 +106,13 @@ class FileProxy(object):
         except Exception:
             pass
     def write(self, data):
+        bx = self._b
+        if bx.raise_at is not None and self._k in ('w', 'a'):
+            j = bx.nwrites
+            bx.nwrites += 1
+            if j == bx.raise_at[0]:
+                bx.raised = True
+                raise bx.raise_at[1]()
         n = len(data.encode('utf-8')) if isinstance(data, str) else len(data)
         b = bytes(data.encode('utf-8') if isinstance(data, str) else data)
         return self._b.call('write', [self._p], lambda: self._f.write(data), {'n': n, 'd': b.hex()})
@@ -499,14 +509,28 @@ def set_defaults(b, sc):
 class Raiser(Exception):
     pass
 
+# what really interrupts a flush in production
+EXC = {'SystemExit': lambda: SystemExit(0),                       # the SIGTERM handler of scripts/supybot
+       'KeyboardInterrupt': lambda: KeyboardInterrupt(),
+       'OSError': lambda: OSError(errno.ENOSPC, 'No space left on device (injected)'),
+       'UnicodeEncodeError': lambda: UnicodeEncodeError('utf-8', '\udc80', 0, 1, 'surrogates not allowed (injected)')}
+
+def parse_outcome(o):
+    """'flush' | 'abort' | 'raise:<class>:<index of the write that raises>'"""
+    if o.startswith('raise:'):
+        _, cls, j = o.split(':')
+        return 'raise', cls, int(j)
+    return o, None, None
+
 def run_flush(b, sc, flush, die_at, exdev):
     """inside a child: install the wrappers and run the real flush"""
-    box = Box(sc.root, die_at=die_at, exdev=exdev)
+    okind, ocls, oj = parse_outcome(sc.outcome)
+    box = Box(sc.root, die_at=die_at, exdev=exdev, raise_at=(oj, EXC[ocls]) if okind == 'raise' else None)
     set_defaults(b, sc)
     install(box)
     err = None
     try:
-        if sc.outcome == 'abort':
+        if okind == 'abort':
             # the caller raises after its writes: the AtomicFile object is dropped un-closed
             AF = b.utils_file.AtomicFile
             orig_close = AF.close
@@ -520,11 +544,23 @@ def run_flush(b, sc, flush, die_at, exdev):
             finally:
                 AF.close = orig_close
             import gc; gc.collect()
+        elif okind == 'raise':
+            # a write in the middle of the flush raises what the real process sees there; whatever propagates
+            # is dropped here (as the main loop / the exit path does) and the objects are collected
+            try:
+                flush()
+            except BaseException as e:
+                if isinstance(e, Die):
+                    raise
+                err_cls = type(e).__name__
+                del e
+            import gc; gc.collect()
         else:
             flush()
     except Exception as e:
         err = '%s: %s' % (type(e).__name__, e)
-    return {'events': box.events, 'points': box.points, 'err': err}
+    return {'events': box.events, 'points': box.points, 'err': err, 'raised': box.raised}
+
 
 def run_load(b, sc, load):
     box = Box(sc.root)
@@ -592,6 +628,9 @@ def explore_scenario(b, callers, sc, loader_cache, sample_points=None):
     if not tr or 'events' not in tr:
         raise RuntimeError('trace run failed: %r %r' % (code, tr))
     events = tr['events']
+    okind, ocls, oj = parse_outcome(sc.outcome)
+    aborted = okind == 'abort' or (okind == 'raise' and tr.get('raised'))
+    eff_outcome = 'abort' if aborted else 'flush'
     order = []
     ops = canon_events(sc, events, order)
     roles = [[role(sc, p, order) for p in e['p']] for e in events]
@@ -648,10 +687,17 @@ def explore_scenario(b, callers, sc, loader_cache, sample_points=None):
         where = 'crash point %d (%s)' % (p, ('%s call #%d %s:%s' % ('before' if p % 2 == 0 else 'after', i, events[i]['k'], '>'.join(roles[i])))
                                          if i < len(events) else 'after the last call')
         # ---- property oracle on the implementation ----
-        good = (t == old_bytes) or (t == new_bytes) or (empty_ok and t in (None, b''))
-        if not good:
-            problems.append('%s: target holds %r, which is neither the old (%r) nor the new (%r) version' % (
-                where, None if t is None else t[:60], None if old_bytes is None else old_bytes[:60], new_bytes[:60]))
+        if aborted:
+            # a flush cut short by an exception must not install anything: the old version, untouched
+            if t != old_bytes:
+                problems.append('%s: the flush was interrupted by %s at write #%s, yet the target holds %r instead of the old version %r '
+                                '(a half-written database was committed)' % (where, ocls or 'an exception', oj, None if t is None else t[:60],
+                                                                            None if old_bytes is None else old_bytes[:60]))
+        else:
+            good = (t == old_bytes) or (t == new_bytes) or (empty_ok and t in (None, b''))
+            if not good:
+                problems.append('%s: target holds %r, which is neither the old (%r) nor the new (%r) version' % (
+                    where, None if t is None else t[:60], None if old_bytes is None else old_bytes[:60], new_bytes[:60]))
         if stray:
             problems.append('%s: unexpected files %r' % (where, stray))
         if t is not None:
@@ -680,7 +726,7 @@ def explore_scenario(b, callers, sc, loader_cache, sample_points=None):
     td = sc.tmpdir(); bd = sc.backupdir()
     mb = '0' if sc.kind == 'flat' else '1'
     tok2 = token2 or ('f' * 40 if token != 'f' * 40 else 'e' * 40)
-    line = '\t'.join([sc.outcome, wire.enc(sc.target), wire.enc_opt(td), wire.enc_opt(bd), mb, '1' if sc.allow_empty else '0',
+    line = '\t'.join([eff_outcome, wire.enc(sc.target), wire.enc_opt(td), wire.enc_opt(bd), mb, '1' if sc.allow_empty else '0',
                       wire.enc(token or ''), wire.enc(tok2), wire.enc(str(now)), '0' if sc.exdev else '1', str(BLK),
                       '~' if old_bytes is None else old_bytes.hex(),
                       '-' if not writes else ','.join('%s:%d' % (d.hex(), n) for d, n in writes)])
@@ -689,9 +735,11 @@ def explore_scenario(b, callers, sc, loader_cache, sample_points=None):
         nl = '\t'.join(['names', wire.enc(sc.target), wire.enc_opt(td), wire.enc_opt(bd), wire.enc(token), wire.enc(tok2), wire.enc(str(now))])
         have = [seen_path.get('t'), seen_path.get('b'), seen_path.get('s')]
         names = (nl, have)
-    tags = [sc.kind, 'size:' + sc.sizename, 'cfg:' + sc.cfgname, sc.outcome, 'target:' + sc.tvariant]
+    tags = [sc.kind, 'size:' + sc.sizename, 'cfg:' + sc.cfgname, eff_outcome, 'target:' + sc.tvariant]
+    if okind == 'raise':
+        tags.append('raise:' + ocls + ('' if aborted else ':not-reached'))
     if any(o.startswith('openW.b') for o in ops): tags.append('backup-made')
-    if sc.outcome == 'flush' and not any(o.startswith('openA.T') for o in ops): tags.append('skip-empty')
+    if eff_outcome == 'flush' and not any(o.startswith('openA.T') for o in ops): tags.append('skip-empty')
     if old_bytes is None: tags.append('no-old-file')
     if not new_bytes: tags.append('new-empty')
     if sc.exdev: tags.append('exdev')
@@ -767,6 +815,17 @@ def scenarios(ctx, root, r, thorough):
                     out.append(Scenario(root, kind, 'big', st_flat, st_flat, cfg))
                 else:
                     out.append(Scenario(root, kind, 'big', st_old, st_new, cfg))
+        # flushes cut short by what the real process sees in the middle of a write (SIGTERM -> SystemExit, ^C, a full disk,
+        # a lone surrogate): nothing may be committed
+        for cls in sorted(EXC):
+            for j in ((0, 4, 17) if thorough else (r.choice([0, 1, 2]), r.choice([4, 9, 17]))):
+                st_o = gen_state(r, kind, 2); st_n = gen_state(r, kind, 3)
+                if kind == 'flat':
+                    for x in st_n: x['dead'] = False
+                    st_n[0]['dead'] = True
+                    out.append(Scenario(root, kind, 'interrupted', st_n, st_n, CONFIGS[0], outcome='raise:%s:%d' % (cls, j)))
+                else:
+                    out.append(Scenario(root, kind, 'interrupted', st_o, st_n, CONFIGS[0] if j else CONFIGS[1], outcome='raise:%s:%d' % (cls, j)))
         # aborted flushes (caller raises: rollback through __del__)
         for cfg in (CONFIGS[0], CONFIGS[1]):
             if kind != 'flat':
